@@ -12,5 +12,5 @@ CONSTANTS
   MaxDepth = 2
   MaxMgmt = 2
   MaxTx = 1
-INVARIANTS NoBlockedRedeploy DeadBlocked
+INVARIANTS NoBlockedRedeploy
 CHECK_DEADLOCK FALSE
